@@ -229,7 +229,7 @@ func (n *Node) readBack(b *Build, typ string, rec reg.Record) (val.Value, bridge
 // budgets
 
 const (
-	baseAlloc = 256 << 10
+	baseAlloc = 1 << 20
 	baseSteps = 1 << 22
 )
 
